@@ -137,6 +137,12 @@ func runC04(t *testing.T, seed int64, n int, out *Out) {
 				} else {
 					routes = append(routes, ammtypes.SwapAmountInRoute{PoolId: rq.poolIds[0], TokenOutDenom: rq.mid}, ammtypes.SwapAmountInRoute{PoolId: rq.poolIds[1], TokenOutDenom: rq.denomOut})
 				}
+				// a degenerate but well-formed route, now and then: the last hop named twice (the second one stays in the denom it is handed).
+				// Whatever the chain makes of it, the request settles within its limits or changes nothing
+				if r.Intn(8) == 0 {
+					routes = append(routes, routes[len(routes)-1])
+					stats["route/degenerate-in"]++
+				}
 				// quote on a cache context, then a limit just below / far below / just above it
 				cctx, _ := ctx.CacheContext()
 				quote := math.OneInt()
@@ -173,6 +179,10 @@ func runC04(t *testing.T, seed int64, n int, out *Out) {
 					routes = append(routes, ammtypes.SwapAmountOutRoute{PoolId: rq.poolIds[0], TokenInDenom: rq.denomIn})
 				} else {
 					routes = append(routes, ammtypes.SwapAmountOutRoute{PoolId: rq.poolIds[0], TokenInDenom: rq.denomIn}, ammtypes.SwapAmountOutRoute{PoolId: rq.poolIds[1], TokenInDenom: rq.mid})
+				}
+				if r.Intn(8) == 0 {
+					routes = append([]ammtypes.SwapAmountOutRoute{routes[0]}, routes...) // the first hop named twice
+					stats["route/degenerate-out"]++
 				}
 				cctx, _ := ctx.CacheContext()
 				quote := math.NewInt(1_000_000_000_000)
